@@ -522,6 +522,7 @@ def _create_sbml_reactions(
     sbml_model: libsbml.Model,
 ) -> None:
     """Create the reactions for the sbml model."""
+    references: set[str] = set()
     for name, rxn in model.get_raw_reactions().items():
         sbml_rxn = sbml_model.createReaction()
         sbml_rxn.setId(_convert_id_to_sbml(id_=name, prefix="RXN"))
@@ -542,10 +543,17 @@ def _create_sbml_reactions(
                 case Derived():
                     # SBML uses species references for derived stoichiometries
                     # So we need to create a assignment rule and then refer to it
+                    # One rule per (reaction, compound): a second reaction with a
+                    # computed coefficient for the same compound gets its own id.
                     reference = f"{compound_id}ref"
+                    if reference in references:
+                        reference = f"{name}_{compound_id}ref"
+                    references.add(reference)
                     _create_derived_parameter(sbml_model, reference, factor)
 
-                    sref = sbml_rxn.createReactant()
+                    # The rule carries the signed value of the coefficient, so the
+                    # reference is a product whatever the sign.
+                    sref = sbml_rxn.createProduct()
                     sref.setId(_convert_id_to_sbml(id_=reference, prefix="CPD"))
                     sref.setSpecies(_convert_id_to_sbml(id_=compound_id, prefix="CPD"))
                 case _:
